@@ -18,7 +18,7 @@
 //!                a fresh in-memory stream becomes the client's writer, a new reader task is spawned for it; the older
 //!                connections and their readers stay alive.  R/G/W/WE act on the newest connection
 //!   CF           connect() is called and fails (the client's address is a closed loopback port): real TcpStream::connect
-//!   BB <kind> <n> <hop>  the stream ends as with B <kind> and, WITHOUT letting any other task run in between, n requests
+//!   BB <kind> <n> <hop> <burn>  (burn = operations spent beforehand, shifting where the runtime's cooperative budget runs out) the stream ends as with B <kind> and, WITHOUT letting any other task run in between, n requests
 //!                (hop, hop+1, ...) are sent back to back from one task: the reader's shutdown races the sends at
 //!                whatever points the runtime makes the sender yield
 //!   SEL <c>      the peer events P/PS/PG/PT/B that follow act on connection number c (0 = the first; default: the newest)
@@ -174,7 +174,7 @@ enum Ev {
     CA,
     CF,
     Sel(usize),
-    BB(String, usize, u32),
+    BB(String, usize, u32, usize),
     P(u32, Option<usize>, u64),
     PT(u32, usize),
     B(String),
@@ -235,7 +235,8 @@ pub fn run(st: &State, t: &mut Toks) -> PResult<String> {
             "BB" => {
                 let k = t.next()?.to_string();
                 let n = t.usize_dec()?;
-                Ev::BB(k, n, t.u32()?)
+                let h = t.u32()?;
+                Ev::BB(k, n, h, t.usize_dec()?)
             }
             "PT" => {
                 let h = t.u32()?;
@@ -353,7 +354,7 @@ pub fn run(st: &State, t: &mut Toks) -> PResult<String> {
                             sel = conns.len() - 1;
                         }
                     }
-                    Ev::BB(kind, n, hop0) => {
+                    Ev::BB(kind, n, hop0, burn) => {
                         if let Some((idx, jh)) = inflight.take() {
                             conns[conns.len() - 1].0.allow(None);
                             results[idx] = Some(jh.await.unwrap_or(Err(())));
@@ -364,6 +365,10 @@ pub fn run(st: &State, t: &mut Toks) -> PResult<String> {
                             "reset" => conns[sel].0.end(true),
                             "garbage" => conns[sel].0.push(&[1, 0, 0, 0, 9, 9, 9, 9]),
                             _ => conns[sel].0.end(false),
+                        }
+                        let scratch = tokio::sync::Mutex::new(());
+                        for _ in 0..burn {
+                            drop(scratch.lock().await);
                         }
                         for i in 0..n {
                             let mut req = DiameterMessage::new(CommandCode::CreditControl, ApplicationId::CreditControl, 0x80, hop0.wrapping_add(i as u32), 7, Arc::clone(&dict));
